@@ -124,6 +124,22 @@ func (w *Worker) genC03(rc *simapi.RunConfig) {
 func (w *Worker) compareToRef(out *CLIOutcome, wl *Workload, visits []simapi.Visit, ref [][]Diag) []simapi.Violation {
 	var vios []simapi.Violation
 	anyRef := false
+	if !out.Attributed && len(visits) > 1 {
+		// this tree has no function the driver could hook to tell the visits apart:
+		// the whole history is compared as one multiset
+		var all []Diag
+		for _, ds := range ref {
+			for _, d := range ds {
+				d.Pkg = ""
+				all = append(all, d)
+			}
+		}
+		for k := range out.Records {
+			out.Records[k].Visit = 0
+		}
+		visits = []simapi.Visit{{Pkg: "", Files: nil}}
+		ref = [][]Diag{all}
+	}
 	for i, vis := range visits {
 		got, other := diagsOfVisit(out, i, vis.Pkg)
 		if len(ref[i]) > 0 {
